@@ -16,11 +16,11 @@ FUNCTIONS = ["forward_filter", "backward_sample", "forward_filtering_backward_sa
              "discrete_hmm (assess/simulate, iterated)", "kalman_filter", "kalman_smoother", "linear_gaussian (assess, iterated)",
              "jax.scipy.special.logsumexp", "jnp.linalg.inv (lu, triangular_solve)", "jax.scipy.stats.multivariate_normal.logpdf (cholesky)"]
 BOUNDS = {
-    "hmm": "K states x M symbols x T steps in {(2,2,1),(2,2,2),(2,3,2),(3,2,2),(2,2,3)} (thorough adds (3,3,2),(2,3,3),(3,2,3)); "
+    "hmm": "K states x M symbols x T steps in {(2,2,1),(2,2,2),(2,3,2),(3,2,2),(2,2,3)} (thorough adds (3,3,2),(2,3,3) and, without FFBS, (3,2,3)); "
            "all stochastic matrices with positive entries, and (sparse groups) with entries >= 0 and p(y) > 0; ALL observation "
            "sequences (symbolic indices in range) and ALL sampled state sequences",
-    "kalman": "kalman_filter (d_state, d_obs, T) in {(1,1,1),(1,1,2),(1,1,3),(2,1,1),(2,1,2),(1,2,1)} (thorough adds (1,1,4),(2,1,3)); kalman_smoother "
-              "{(1,1,1),(1,1,2),(1,1,3),(2,1,1),(1,2,1)} (thorough adds (1,1,4)); step model (1,1),(2,1),(1,2), iterated (1,1) x 2 steps; "
+    "kalman": "kalman_filter (d_state, d_obs, T) in {(1,1,1),(1,1,2),(1,1,3),(2,1,1),(2,1,2),(1,2,1)} (thorough adds (1,1,4)); kalman_smoother "
+              "{(1,1,1),(1,1,2),(1,1,3),(2,1,1),(1,2,1)}; step model (1,1),(2,1),(1,2), iterated (1,1) x 2 steps; "
               "all real model matrices, all symmetric positive-definite covariances (parametrised by their Cholesky factor), all observation values. "
               "NOT covered (normal forms / path enumeration exceed the budget): d_obs = 2 with T >= 2, d_state = d_obs = 2, smoother with d_state = 2 and T >= 2",
 }
@@ -39,17 +39,18 @@ EXPLANATION = ("the real state_space functions are traced to Jaxpr and encoded; 
 def groups(tier, seed):
     hm = [(2, 2, 1), (2, 2, 2), (2, 3, 2), (3, 2, 2), (2, 2, 3)]
     if tier == "thorough":
-        hm += [(3, 3, 2), (2, 3, 3), (3, 2, 3)]
+        hm += [(3, 3, 2), (2, 3, 3)]
     gs = []
     for k, m, t in hm:
         gs += [f"ff:{k}:{m}:{t}", f"ffbs:{k}:{m}:{t}", f"seq:{k}:{m}:{t}"]
-    gs += ["ff0:2:2:2", "ffbs0:2:2:2"] + (["ff0:2:3:2", "ff0:3:2:2", "ffbs0:2:2:3"] if tier == "thorough" else [])
+    if tier == "thorough":
+        gs += ["ff:3:2:3", "seq:3:2:3"]          # (FFBS for K=3, T=3 exceeds the budget: measured > 15 min)
+    gs += ["ff0:2:2:2", "ffbs0:2:2:2"] + (["ff0:2:3:2"] if tier == "thorough" else [])
     gs += ["step:2:2", "step:3:2", "step:2:3", "iter:2:2:2", "iter:2:2:3"]
     kf = [(1, 1, 1), (1, 1, 2), (1, 1, 3), (2, 1, 1), (2, 1, 2), (1, 2, 1)]
     ks = [(1, 1, 1), (1, 1, 2), (1, 1, 3), (2, 1, 1), (1, 2, 1)]
     if tier == "thorough":
-        kf += [(1, 1, 4), (2, 1, 3)]
-        ks += [(1, 1, 4)]
+        kf += [(1, 1, 4)]          # (2,1,3) and the smoother at T = 4 exceed the budget (measured > 15 min)
     gs += [f"kf:{a}:{b}:{c}" for a, b, c in kf] + [f"ks:{a}:{b}:{c}" for a, b, c in ks]
     gs += ["lgstep:1:1", "lgstep:2:1", "lgstep:1:2", "lgiter:1:1:2"]
     return gs
